@@ -101,9 +101,9 @@ Qed.
 
 Theorem tile_colours t W H s b i :
   color_in_range (x_pix t) = true -> color_in_range (x_bg t) = true ->
-  tile t W H s b = Ok i -> colours_ok t (ipixc i) (ibckg i) = true.
+  tile_filled t W H s b = Ok i -> colours_ok t (ipixc i) (ibckg i) = true.
 Proof.
-  intros Rp Rb Ht. unfold tile in Ht.
+  intros Rp Rb Ht. unfold tile_filled in Ht.
   destruct (opt_color (x_bg t) 0) as [bg|] eqn:Ebg; cbn [bind] in Ht; [|discriminate].
   destruct (opt_color (x_pix t) 65535) as [pc|] eqn:Epc; cbn [bind] in Ht; [|discriminate].
   apply Ok_inj in Ht. subst i.
@@ -127,7 +127,7 @@ Proof.
 Qed.
 
 Theorem tile_rgb t W H s b i :
-  0 <= W -> 0 <= H -> tile t W H s b = Ok i ->
+  0 <= W -> 0 <= H -> tile_filled t W H s b = Ok i ->
   rgb_slice i = rgb_expected W H (idata i) (ipixc i) (ibckg i).
 Proof.
   intros HW HH Ht. destruct (tile_size t W H s b i HW HH Ht) as (EW & EH & Ewib & _).
@@ -138,7 +138,7 @@ Proof.
 Qed.
 
 Corollary tile_rgb_ok t W H s b i :
-  0 <= W -> 0 <= H -> tile t W H s b = Ok i ->
+  0 <= W -> 0 <= H -> tile_filled t W H s b = Ok i ->
   rgb_ok W H (idata i) (ipixc i) (ibckg i) (rgb_slice i) = true.
 Proof.
   intros HW HH Ht. unfold rgb_ok. rewrite (tile_rgb t W H s b i HW HH Ht).
